@@ -3,12 +3,16 @@ package checks
 import (
 	"bytes"
 	"context"
+	"crypto/tls"
+	"encoding/json"
 	"errors"
 	"fmt"
 	"io"
 	"math/rand"
 	"net"
 	"net/http"
+	"net/http/httptest"
+	"net/url"
 	"strings"
 	"sync"
 	"sync/atomic"
@@ -20,6 +24,8 @@ import (
 	"github.com/DataDog/datadog-traceroute/publicip"
 	"github.com/DataDog/datadog-traceroute/result"
 	"github.com/DataDog/datadog-traceroute/reversedns"
+	"github.com/DataDog/datadog-traceroute/server"
+	"github.com/DataDog/datadog-traceroute/traceroute"
 	"github.com/anishathalye/porcupine"
 	"github.com/cenkalti/backoff/v5"
 
@@ -730,6 +736,98 @@ func runC18FetcherCache(c *fw.Ctx, id string) {
 	c.Count("fetcher_scenarios", 1)
 }
 
+// runC18ProductionPath (REAL clock, real sockets on loopback): the fetcher exactly as production builds it
+// (traceroute.NewTraceroute / server.NewServer -> publicip.NewPublicIPFetcher -> its own HTTP client cloned from
+// http.DefaultTransport, the hard-coded https:// providers). The providers are reached through a local CONNECT proxy
+// that tunnels every one of them to one local TLS server counting the requests. Requests without any probing (0 runs,
+// 0 samples) through one Traceroute value, then through one Server: the address in every document is the provider's, and
+// inside the 2 h expiry the providers are asked exactly once - whichever object asks.
+func runC18ProductionPath(c *fw.Ctx, id string) {
+	resetProcessState()
+	const publicIP = "203.0.113.7"
+	var hits atomic.Int32
+	backend := httptest.NewTLSServer(http.HandlerFunc(func(w http.ResponseWriter, _ *http.Request) {
+		hits.Add(1)
+		w.Header().Set("Connection", "close")
+		w.Write([]byte(publicIP + "\n"))
+	}))
+	defer backend.Close()
+	proxy := httptest.NewServer(http.HandlerFunc(func(w http.ResponseWriter, r *http.Request) {
+		if r.Method != http.MethodConnect {
+			http.Error(w, "CONNECT only", http.StatusMethodNotAllowed)
+			return
+		}
+		up, err := net.Dial("tcp", backend.Listener.Addr().String())
+		if err != nil {
+			http.Error(w, err.Error(), http.StatusBadGateway)
+			return
+		}
+		conn, _, err := w.(http.Hijacker).Hijack()
+		if err != nil {
+			up.Close()
+			return
+		}
+		conn.Write([]byte("HTTP/1.1 200 Connection established\r\n\r\n"))
+		go func() { io.Copy(up, conn); up.Close() }()
+		io.Copy(conn, up)
+		conn.Close()
+	}))
+	defer proxy.Close()
+	proxyURL, _ := url.Parse(proxy.URL)
+	dt := http.DefaultTransport.(*http.Transport)
+	oldProxy, oldTLS := dt.Proxy, dt.TLSClientConfig
+	dt.Proxy = http.ProxyURL(proxyURL)
+	dt.TLSClientConfig = &tls.Config{InsecureSkipVerify: true}
+	defer func() { dt.Proxy, dt.TLSClientConfig = oldProxy, oldTLS }()
+
+	tr := traceroute.NewTraceroute()
+	params := traceroute.TracerouteParams{Hostname: "192.0.2.1", Protocol: "udp", MinTTL: 1, MaxTTL: 5, Timeout: 100 * time.Millisecond, CollectSourcePublicIP: true}
+	step := 0
+	judge := func(got string, err error) bool {
+		step++
+		if err != nil {
+			c.Inconclusive(fmt.Sprintf("%s: request %d failed: %v", id, step, err))
+			return false
+		}
+		if got != publicIP {
+			c.Violate("C18", "production-path/wrong-address", fmt.Sprintf("%s: request %d reports public IP %q, the provider answers %s", id, step, got, publicIP), nil)
+			return false
+		}
+		if h := hits.Load(); h != 1 {
+			c.Violate("C18", "production-path/requeried", fmt.Sprintf("%s: after request %d the providers have been asked %d times; a stored success is served without re-querying until its 2 h expiry", id, step, h), nil)
+			return false
+		}
+		return true
+	}
+	for run := 0; run < 3; run++ {
+		ctx, cancel := context.WithTimeout(context.Background(), 15*time.Second)
+		res, err := tr.RunTraceroute(ctx, params)
+		cancel()
+		got := ""
+		if res != nil {
+			got = res.Source.PublicIP
+		}
+		if !judge(got, err) {
+			return
+		}
+	}
+	srv := server.NewServer()
+	for run := 0; run < 2; run++ {
+		rec := httptest.NewRecorder()
+		srv.TracerouteHandler(rec, httptest.NewRequest("GET", "/traceroute?target=192.0.2.1&protocol=udp&traceroute-queries=0&e2e-queries=0&timeout=100&source-public-ip=true", nil))
+		var doc result.Results
+		err := json.Unmarshal(rec.Body.Bytes(), &doc)
+		if rec.Code != 200 && err == nil {
+			err = fmt.Errorf("status %d: %s", rec.Code, rec.Body.String())
+		}
+		if !judge(doc.Source.PublicIP, err) {
+			return
+		}
+	}
+	c.Nontrivial("production-path")
+	c.Count("production_path_requests", step)
+}
+
 func checkC18() fw.Check {
 	return fw.Check{
 		Prop:  "C18",
@@ -751,6 +849,9 @@ func checkC18() fw.Check {
 				cases = append(cases, fw.Case{ID: fmt.Sprintf("C18/rdns-cache/%d", i), Bubble: true, Run: func(c *fw.Ctx) { runC18RdnsCache(c, c.ID) }})
 				cases = append(cases, fw.Case{ID: fmt.Sprintf("C18/cache-porcupine/%d", i), Bubble: false, Run: func(c *fw.Ctx) { runC18CachePorcupine(c, c.ID, c.T) }})
 				cases = append(cases, fw.Case{ID: fmt.Sprintf("C18/publicip/%d", i), Bubble: true, Run: func(c *fw.Ctx) { runC18PublicIP(c, c.ID) }})
+				if i == 0 {
+					cases = append(cases, fw.Case{ID: "C18/production-path", Run: func(c *fw.Ctx) { runC18ProductionPath(c, c.ID) }})
+				}
 				cases = append(cases, fw.Case{ID: fmt.Sprintf("C18/fetcher-cache/%d", i), Bubble: true, Run: func(c *fw.Ctx) { runC18FetcherCache(c, c.ID) }})
 			}
 			return cases
